@@ -42,6 +42,7 @@ func (m *Mutex) TryLock() bool {
 }
 
 func (m *Mutex) Lock() {
+	rt.Yield("sync") // taking a lock is a scheduling point: what another task does between two critical sections matters
 	if m.TryLock() {
 		return
 	}
@@ -93,6 +94,7 @@ func (m *RWMutex) TryRLock() bool {
 }
 
 func (m *RWMutex) Lock() {
+	rt.Yield("sync")
 	if m.TryLock() {
 		return
 	}
@@ -120,6 +122,7 @@ func (m *RWMutex) Unlock() {
 }
 
 func (m *RWMutex) RLock() {
+	rt.Yield("sync")
 	if m.TryRLock() {
 		return
 	}
